@@ -951,17 +951,79 @@ Section C03.
   Variable E : senv.
   Variable P : prims.
 
-  Lemma none_tail_cu ts : none_tail (map (cu true) ts) = none_tail_t ts.
+  Lemma omapM_ext_in {A B} (f g: A -> option B) l : (forall x, In x l -> f x = g x) -> omapM f l = omapM g l.
   Proof.
-    induction ts as [|t ts IH]; [reflexivity|].
-    cbn [map none_tail none_tail_t]. rewrite IH.
-    destruct t as [ | | | | | | | | | | | | [|t1 ts1] | | t' | | | ]; reflexivity.
+    induction l as [|a l IH]; intros H; [reflexivity|].
+    cbn [omapM]. rewrite (H a (or_introl eq_refl)), IH; [reflexivity|]. intros x Hx. apply H. right. exact Hx.
   Qed.
 
-  Lemma konst_u_t f : konst_u f = konst_t f.
+  Lemma omapM_map {A B C} (h: A -> B) (f: B -> option C) l : omapM f (map h l) = omapM (fun x => f (h x)) l.
+  Proof. induction l as [|a l IH]; [reflexivity|]. cbn [map omapM]. rewrite IH. reflexivity. Qed.
+
+  Lemma const_dec_n_unfold n u : const_dec_n E n u =
+    match u with
+    | UScalar SNone => Some VNone
+    | UTupleFix us => match omapM (const_dec_n E n) us with Some cs => Some (VTuple cs) | None => None end
+    | UNamed c =>
+        match n with
+        | O => None
+        | S n' =>
+            match sfind E KNamed c with
+            | None => None
+            | Some k =>
+                if has_default k.(sc_fields) then None
+                else match omapM (fun f => const_dec_n E n' (cu true f.(sf_ty))) k.(sc_fields) with
+                     | Some cs => Some (VNT c cs)
+                     | None => None end
+            end
+        end
+    | _ => None end.
+  Proof. destruct n, u; reflexivity. Qed.
+
+  Lemma const_ty_n_unfold n t : const_ty_n E n t =
+    match t with
+    | SNoneT => Some VNone
+    | STupleFix ts => match omapM (const_ty_n E n) ts with Some cs => Some (VTuple cs) | None => None end
+    | SNamed c =>
+        match n with
+        | O => None
+        | S n' =>
+            match sfind E KNamed c with
+            | None => None
+            | Some k =>
+                if has_default k.(sc_fields) then None
+                else match omapM (fun f => const_ty_n E n' f.(sf_ty)) k.(sc_fields) with
+                     | Some cs => Some (VNT c cs)
+                     | None => None end
+            end
+        end
+    | _ => None end.
+  Proof. destruct n, t; reflexivity. Qed.
+
+  (* constant-ness is decided alike by the generator and by the reference *)
+  Lemma const_dec_cu_n n : forall t, const_dec_n E n (cu true t) = const_ty_n E n t.
   Proof.
-    unfold konst_u, konst_t. destruct (sf_ty f) as [ | | | | | | | | | | | | [|t1 ts1] | | t' | | | ]; reflexivity.
+    induction n as [|n IHn].
+    all: induction t as [ | | | | | | m' | k' | e' | t' IHt | fr' t' IHt | t' IHt | ts IHts | kt IHkt vt IHvt | t' IHt | c' | c' | c' ]
+      using sty_ind'; cbn [cu]; rewrite const_dec_n_unfold, const_ty_n_unfold; try reflexivity.
+    all: try (match goal with |- context [omapM (const_dec_n E ?m) (map (cu true) ?l)] =>
+                rewrite omapM_map; rewrite (omapM_ext_in _ (const_ty_n E m) l);
+                [reflexivity | intros x Hx; apply (Forall_In _ _ IHts x Hx)] end).
+    destruct (sfind E KNamed c') as [k|]; [|reflexivity]. destruct (has_default (sc_fields k)); [reflexivity|].
+    rewrite (omapM_ext_in _ (fun f => const_ty_n E n (sf_ty f))); [reflexivity | intros f _; apply IHn].
   Qed.
+
+  Lemma const_dec_cu t : const_dec E (cu true t) = const_ty E t.
+  Proof. apply const_dec_cu_n. Qed.
+
+  Lemma none_tail_cu ts : none_tail E (map (cu true) ts) = none_tail_t E ts.
+  Proof.
+    induction ts as [|t ts IH]; [reflexivity|].
+    cbn [map none_tail none_tail_t]. rewrite IH, const_dec_cu. reflexivity.
+  Qed.
+
+  Lemma konst_u_t f : (konst_u E) f = (konst_t E) f.
+  Proof. unfold konst_u, konst_t. apply const_dec_cu. Qed.
 
   Lemma uk_str_unfold n u s : uk_str E P n u s =
     match u with
@@ -979,7 +1041,7 @@ Section C03.
         r <- (fix go (us: list pdec) (l: list string) {struct us} : res (list pv) :=
                 match us, l with
                 | [], _ => Ok []
-                | _ :: _, [] => none_tail us
+                | _ :: _, [] => none_tail E us
                 | u' :: us', x :: l' => y <- uk_str E P n u' x ;; ys <- go us' l' ;; Ok (y :: ys)
                 end) us (utf8_chars s) ;;
         Ok (VTuple r)
@@ -994,7 +1056,7 @@ Section C03.
             match n with
             | O => Exn XRecursion
             | S n' =>
-                r <- nt_items (fun f x => uk_str E P n' (cu true f.(sf_ty)) x) konst_u
+                r <- nt_items (fun f x => uk_str E P n' (cu true f.(sf_ty)) x) (konst_u E)
                               (nt_exhausted (has_default k.(sc_fields))) k.(sc_fields) (utf8_chars s) ;;
                 Ok (VNT c r)
             end
@@ -1002,7 +1064,7 @@ Section C03.
     | UTyped c =>
         match sfind E KTyped c with
         | None => Exn XAttributeError
-        | Some k => td_nondict konst_u k.(sc_fields) end
+        | Some k => td_nondict (konst_u E) k.(sc_fields) end
     end.
   Proof. destruct n, u; reflexivity. Qed.
 
@@ -1025,7 +1087,7 @@ Section C03.
         r <- (fix go (ts: list sty) (l: list string) {struct ts} : res (list pv) :=
                 match ts, l with
                 | [], _ => Ok []
-                | _ :: _, [] => none_tail_t ts
+                | _ :: _, [] => none_tail_t E ts
                 | t' :: ts', x :: l' => y <- ref_dec_str E P n t' x ;; ys <- go ts' l' ;; Ok (y :: ys)
                 end) ts (utf8_chars s) ;;
         Ok (VTuple r)
@@ -1041,7 +1103,7 @@ Section C03.
             match n with
             | O => Exn XRecursion
             | S n' =>
-                r <- nt_items (fun f x => ref_dec_str E P n' f.(sf_ty) x) konst_t
+                r <- nt_items (fun f x => ref_dec_str E P n' f.(sf_ty) x) (konst_t E)
                               (nt_exhausted (has_default k.(sc_fields))) k.(sc_fields) (utf8_chars s) ;;
                 Ok (VNT c r)
             end
@@ -1049,7 +1111,7 @@ Section C03.
     | STyped c =>
         match sfind E KTyped c with
         | None => Exn XAttributeError
-        | Some k => td_nondict konst_t k.(sc_fields) end
+        | Some k => td_nondict (konst_t E) k.(sc_fields) end
     end.
   Proof. destruct n, t; reflexivity. Qed.
 
@@ -1116,10 +1178,10 @@ Section C03.
       destruct (mapM f l) as [ys|e]; [intros Hc; discriminate Hc | exact Hl].
     Qed.
 
-    Lemma nrec_none_tail_t ts : nrec (none_tail_t ts).
+    Lemma nrec_none_tail_t ts : nrec (none_tail_t E ts).
     Proof.
       induction ts as [|t ts IH]; cbn [none_tail_t]; [intros H; discriminate H|].
-      destruct (const_ty t); [|intros H; discriminate H]. apply nrec_bind; [exact IH | intros a H; discriminate H].
+      destruct (const_ty E t); [|intros H; discriminate H]. apply nrec_bind; [exact IH | intros a H; discriminate H].
     Qed.
 
     Lemma nrec_nt_exhausted hd rest : nrec (nt_exhausted hd rest).
@@ -1229,12 +1291,12 @@ Section C03.
               r <- (fix go (us: list pdec) (l: list pv) {struct l} : res (list pv) :=
                       match us, l with
                       | [], _ => Ok []                       (* surplus items are ignored *)
-                      | _ :: _, [] => none_tail us
+                      | _ :: _, [] => none_tail E us
                       | u' :: us', x :: l' => y <- uk E P x u' ;; ys <- go us' l' ;; Ok (y :: ys)
                       end) us l ;;
               Ok (VTuple r)
           | VStr s => uk_str E P (List.length E) u s
-          | _ => r <- none_tail us ;; Ok (VTuple r)     (* only constant positions never index the value *)
+          | _ => r <- none_tail E us ;; Ok (VTuple r)     (* only constant positions never index the value *)
           end
       | UDictComp ku vu =>
           match d with
@@ -1283,11 +1345,11 @@ Section C03.
           | Some k =>
               match d with
               | VList l | VTuple l =>
-                  r <- nt_items (fun f x => uk E P x (cu true f.(sf_ty))) konst_u
+                  r <- nt_items (fun f x => uk E P x (cu true f.(sf_ty))) (konst_u E)
                                 (nt_exhausted (has_default k.(sc_fields))) k.(sc_fields) l ;;
                   Ok (VNT c r)
               | VStr s => uk_str E P (List.length E) u s
-              | _ => r <- nt_tail konst_u (fun _ => Exn XTypeError) k.(sc_fields) ;; Ok (VNT c r)
+              | _ => r <- nt_tail (konst_u E) (fun _ => Exn XTypeError) k.(sc_fields) ;; Ok (VNT c r)
               end
           end
       | UTyped c =>
@@ -1298,10 +1360,10 @@ Section C03.
               | VDict kvs =>
                   let entries : list (pv * (pdec -> res pv)) :=
                       map (fun p => match p with (key, x) => (key, uk E P x) end) kvs in
-                  r <- td_go (fun f dx => dx (cu true f.(sf_ty))) konst_u XKeyError
+                  r <- td_go (fun f dx => dx (cu true f.(sf_ty))) (konst_u E) XKeyError
                              entries (td_order k.(sc_fields)) ;;
                   Ok (VDict r)
-              | _ => td_nondict konst_u k.(sc_fields)
+              | _ => td_nondict (konst_u E) k.(sc_fields)
               end
           end
       end.
@@ -1345,12 +1407,12 @@ Section C03.
               r <- (fix go (ts: list sty) (l: list pv) {struct l} : res (list pv) :=
                       match ts, l with
                       | [], _ => Ok []
-                      | _ :: _, [] => none_tail_t ts
+                      | _ :: _, [] => none_tail_t E ts
                       | t' :: ts', x :: l' => y <- ref_dec E P x t' ;; ys <- go ts' l' ;; Ok (y :: ys)
                       end) ts l ;;
               Ok (VTuple r)
           | VStr s => ref_dec_str E P (List.length E) t s
-          | _ => r <- none_tail_t ts ;; Ok (VTuple r)
+          | _ => r <- none_tail_t E ts ;; Ok (VTuple r)
           end
       | SDict kt vt =>
           match d with
@@ -1398,11 +1460,11 @@ Section C03.
           | Some k =>
               match d with
               | VList l | VTuple l =>
-                  r <- nt_items (fun f x => ref_dec E P x f.(sf_ty)) konst_t
+                  r <- nt_items (fun f x => ref_dec E P x f.(sf_ty)) (konst_t E)
                                 (nt_exhausted (has_default k.(sc_fields))) k.(sc_fields) l ;;
                   Ok (VNT c r)
               | VStr s => ref_dec_str E P (List.length E) t s
-              | _ => r <- nt_tail konst_t (fun _ => Exn XTypeError) k.(sc_fields) ;; Ok (VNT c r)
+              | _ => r <- nt_tail (konst_t E) (fun _ => Exn XTypeError) k.(sc_fields) ;; Ok (VNT c r)
               end
           end
       | STyped c =>
@@ -1413,10 +1475,10 @@ Section C03.
               | VDict kvs =>
                   let entries : list (pv * (sty -> res pv)) :=
                       map (fun p => match p with (key, x) => (key, ref_dec E P x) end) kvs in
-                  r <- td_go (fun f dx => dx f.(sf_ty)) konst_t XKeyError
+                  r <- td_go (fun f dx => dx f.(sf_ty)) (konst_t E) XKeyError
                              entries (td_order k.(sc_fields)) ;;
                   Ok (VDict r)
-              | _ => td_nondict konst_t k.(sc_fields)
+              | _ => td_nondict (konst_t E) k.(sc_fields)
               end
           end
       end.
